@@ -119,7 +119,11 @@ impl<'a> LspServer<'a> {
                     }
                     self.handle_request(req);
                 }
-                lsp_server::Message::Response(_) => todo!(),
+                lsp_server::Message::Response(_) => {
+                    // This server does not send requests to the client so
+                    // there is nothing that a response could belong to.
+                    debug!("Ignoring unexpected response from the client");
+                }
                 lsp_server::Message::Notification(notification) => {
                     self.handle_notification(&notification);
                 }
@@ -137,7 +141,7 @@ impl<'a> LspServer<'a> {
             }
             Err(req) => req,
         };
-        let _request = match Self::cast_request::<request::SemanticTokensFullRequest>(req) {
+        let unhandled = match Self::cast_request::<request::SemanticTokensFullRequest>(req) {
             Ok(params) => {
                 let uri = params.text_document.uri;
                 let token_result = self.project.tokenize(&uri);
@@ -163,6 +167,16 @@ impl<'a> LspServer<'a> {
             }
             Err(req) => req,
         };
+
+        // Every request must have exactly one response, so a request that this
+        // server does not implement is answered with an error.
+        debug!("Request for method that is not implemented {}", unhandled.method);
+        let response = lsp_server::Response::new_err(
+            req_id,
+            lsp_server::ErrorCode::MethodNotFound as i32,
+            format!("Method not implemented: {}", unhandled.method),
+        );
+        self.sender.send(Message::Response(response)).unwrap();
         ""
     }
 
@@ -225,12 +239,14 @@ impl<'a> LspServer<'a> {
             match Self::cast_notification::<notification::DidChangeTextDocument>(notification) {
                 Ok(params) => {
                     trace!("DidChangeTextDocument {}", params.text_document.uri);
-                    let contents = params.content_changes.into_iter().next().unwrap().text;
                     let uri = params.text_document.uri;
                     let version = params.text_document.version;
 
-                    self.project
-                        .change_text_document(&uri, contents.as_str().to_string());
+                    // Documents are synchronized by full content so the last change
+                    // has the current text. No change leaves the text as it is.
+                    if let Some(change) = params.content_changes.into_iter().last() {
+                        self.project.change_text_document(&uri, change.text);
+                    }
                     let diagnostics = self.project.semantic(&uri);
 
                     self.send_notification::<PublishDiagnostics>(PublishDiagnosticsParams {
